@@ -356,7 +356,7 @@ verif_harness! {
     stubs: [(crate::mix, t256::stub_mix), (crate::inv_mix, t256::stub_inv_mix)],
     prop: |inp| { t256::bytes_dec(inp) }
 }
-//@ harness name=tf256_rt_ed prop=C01,C20 tier=quick bits=5120 stub=1 est=90 need=5 desc="W: Threefish256 decrypt_block_u64(encrypt_block_u64(b)) == b on an ARBITRARY subkey table (any key, any tweak), all blocks; mix / inv_mix uninterpreted mutual inverses (leaf lemma)"
+//@ harness name=tf256_rt_ed prop=C01,C20 tier=quick bits=5120 stub=1 est=100 need=5 desc="W: Threefish256 decrypt_block_u64(encrypt_block_u64(b)) == b on an ARBITRARY subkey table (any key, any tweak), all blocks; mix / inv_mix uninterpreted mutual inverses (leaf lemma)"
 verif_harness! {
     name: tf256_rt_ed,
     bytes: 640,
@@ -364,7 +364,7 @@ verif_harness! {
     stubs: [(crate::mix, t256::stub_mix), (crate::inv_mix, t256::stub_inv_mix)],
     prop: |inp| { t256::rt_ed(inp) }
 }
-//@ harness name=tf256_rt_de prop=C01,C20 tier=quick bits=5120 stub=1 est=95 need=5 desc="W: Threefish256 encrypt_block_u64(decrypt_block_u64(b)) == b on an ARBITRARY subkey table, all blocks"
+//@ harness name=tf256_rt_de prop=C01,C20 tier=quick bits=5120 stub=1 est=105 need=5 desc="W: Threefish256 encrypt_block_u64(decrypt_block_u64(b)) == b on an ARBITRARY subkey table, all blocks"
 verif_harness! {
     name: tf256_rt_de,
     bytes: 640,
